@@ -813,13 +813,19 @@ def fix_ambiguity(stmts):
     return out
 
 
-def make_record(rid, seed, profile='general', max_stmts=30, pop=None):
+def make_tree(seed, profile='general', max_stmts=30, pop=None):
+    """The syntax tree (and population) for a seed - the same tree make_record() turns into text."""
     rng = random.Random(seed)
     if pop is None:
         pop = gen_population(rng)
     gen = Gen(rng, pop, profile, max_stmts)
     stmts = fix_ambiguity(gen.program())
-    style = A.Style(rng, redundant=0.15, brace_atoms=0.1, bracket_calls=0.4)
+    return stmts, pop, gen, rng
+
+
+def make_record(rid, seed, profile='general', max_stmts=30, pop=None, style=None):
+    stmts, pop, gen, rng = make_tree(seed, profile, max_stmts, pop)
+    style = style or A.Style(rng, redundant=0.15, brace_atoms=0.1, bracket_calls=0.4)
     text = A.unparse(stmts, style)
     extra = ['Nowhere', 'NoGroup', 'NoLoc']
     return {'id': rid, 'seed': seed, 'profile': profile, 'text': text, 'prog': A.flatten(stmts), 'pop': pop,
